@@ -13,7 +13,7 @@ def run(chk):
     for i in range(chk.budget(700, 8000)):
         r = rng.fork("a%d" % i)
         s = gen_hist.base_scenario(r, tables, nthreads=r.range(1, 4))
-        gen_hist.thread_history(r, s, r.range(2, 50), with_affinity=True)
+        gen_hist.thread_history(r, s, r.range(2, 50), with_affinity=True, spice=True)
         scs.append(s)
     corr, real, model = emucheck.run_cases(chk, build, oracle, tables, scs, types={1, 2, 3, 4, 6},
                                            deciders=(emucheck.d_cpu, emucheck.d_thread), label="affinity")
